@@ -67,7 +67,11 @@ def verify_item(item, timeout_ms=None):
     try:
         if kind == "lemma":
             fn = st["lemmas"][name]
-            obs = [(f"lemma:{name}:{n}", pc, g, "lemma", 0, {}) for n, pc, g in fn()]
+            steps = fn()
+            obs = [(f"lemma:{name}:{st_[0]}", st_[1], st_[2], "lemma", 0, {}) for st_ in steps]
+            # a step may name candidate ground instances of its universally quantified variables: when the solvers
+            # cannot decide the general statement, a candidate that falsifies it is a genuine counterexample
+            candidates = {f"lemma:{name}:{st_[0]}": st_[3] for st_ in steps if len(st_) > 3}
             rep["file"] = "contracts/lemmas.py"
             # vacuity guard: `False` must not follow from the hypotheses of any step
             for oname, pc, g, _, _, _ in obs:
@@ -141,6 +145,15 @@ def verify_item(item, timeout_ms=None):
                 res = solve.prove(pc, goal, use_cvc5=False, timeout_ms=min(timeout_ms or 10 ** 9, 3000))
             else:
                 res = solve.prove(pc, goal, timeout_ms=timeout_ms)
+            if res.status == "unknown" and kind == "lemma" and candidates.get(oname):
+                import z3 as _z3
+                whole = _z3.And(*pc, _z3.Not(goal)) if pc else _z3.Not(goal)
+                for cand in candidates[oname]:
+                    inst = _z3.simplify(_z3.substitute(whole, *[(var, _z3.IntVal(val)) for var, val in cand]))
+                    if _z3.is_true(inst):      # evaluates to true: hypotheses hold and the goal is false there
+                        res = solve.Result("refuted", "z3-ground-instance", res.seconds, None,
+                                           "falsified by the ground instance " + ", ".join(f"{v}={x}" for v, x in cand))
+                        break
             if res.status == "unknown":
                 n_unknown += 1
             dump = os.environ.get("PYVC_DUMP")
